@@ -924,7 +924,7 @@ pub fn run(ctx: &Ctx) -> i32 {
     });
     let ev = Evidence {
         level: "exploration",
-        rule: "Four kinds of history. Huge (one per quick batch, more in thorough): a fresh table filled with 0.07-4.3 million distinct keys, then 20 000 bracketed stores (shallower, equal, deeper) and lookups on cached keys. In-situ through the protocol (one twelfth): position / go depth commands on one engine process with `setoption name Hash value N` lines in between (sizes alternating, so that an earlier size comes back), every store judged as below. In-situ (one sixth): 2-5 searches on ONE engine without reset (same position at other depths, a successor whose tree overlaps, clock-interrupted searches, refused stores); every store the searcher makes is judged by what the engine's own table shows for that key right before and right after the call (a shallower result must not replace a deeper one, an equal or deeper one must, nothing else may appear), and after each search the table may hold nothing but what those stores left. Replayed: histories of store/retrieve calls, one third recorded from simulated searches on one table (a clock-interrupted search followed by two completed ones, optionally with refused stores), the rest synthetic over 1-6 keys (some differing only in their high bits) with depths 0..4 (one history in five over the whole depth byte: 31, 32, 63, 64, 127, 128, 255, ...), many ties and scores that include mate values and window edges. Each history is replayed call by call on a fresh real TranspositionTable, every store bracketed by a lookup of its key; a lookup must show nothing or exactly the data last seen accepted for that key, and each store must obey the replacement rule. A table that forgets entries is tolerated (counted in entries_lost_*), as the property allows a lookup to return nothing. A case = a history with at least one store and one retrieve; distinct by content hash. One synthetic history in four replaces the table one to three times on the way (new table built next to or after the old one, as ucinewgame does): the new table was never given anything.".into(),
+        rule: "Four kinds of history. Huge (one per quick batch, more in thorough): a fresh table filled with 0.07-4.3 million distinct keys, then 20 000 bracketed stores (shallower, equal, deeper) and lookups on cached keys. In-situ through the protocol (one twelfth): position / go depth commands on one engine process with `setoption name Hash value N` lines in between (sizes alternating, so that an earlier size comes back), every store judged as below. In-situ (one sixth): 2-5 searches on ONE engine without reset (same position at other depths, a successor whose tree overlaps, clock-interrupted searches, refused stores); every store the searcher makes is judged by what the engine's own table shows for that key right before and right after the call (a shallower result must not replace a deeper one, an equal or deeper one must, nothing else may appear), and after each search the table may hold nothing but what those stores left. Replayed: histories of store/retrieve calls, one third recorded from simulated searches on one table (a clock-interrupted search followed by two completed ones, optionally with refused stores), the rest synthetic over 1-6 keys (some differing only in their high bits) with depths 0..4 (one history in five over the whole depth byte: 31, 32, 63, 64, 127, 128, 255, ...), many ties and scores that include mate values and window edges. Each history is replayed call by call on a fresh real TranspositionTable, every store bracketed by a lookup of its key; a lookup must show nothing or exactly the data last seen accepted for that key, and each store must obey the replacement rule. A table that forgets entries is tolerated (counted in entries_lost_*), as the property allows a lookup to return nothing. A case = a history with at least one store and one retrieve; distinct by content hash. One synthetic history in four replaces the table one to three times on the way (new table built next to or after the old one, as ucinewgame does): the new table was never given anything. One synthetic history in eight uses the keys 0, all-ones and 1.".into(),
         extra: serde_json::Map::new(),
         assumptions: vec![
             "the table is a deterministic function of its call sequence, so replaying recorded calls is equivalent to observing returns inside the search; the in-situ audit covers what the engine does to its table between calls (per-search housekeeping)".into(),
